@@ -39,7 +39,7 @@ type Workload struct {
 	entries  []Entry
 	stop     chan struct{} // closed by Stop
 	stopped  atomic.Bool
-	paused   atomic.Bool // churners idle while set
+	paused   atomic.Bool    // churners idle while set
 	wg       sync.WaitGroup // every stoppable goroutine
 	recvCh   chan int       // never sent to before Stop
 	sendCh   chan int       // never received from before Stop
